@@ -175,7 +175,7 @@ func dotStuff(msg []byte) []byte {
 // freePort asks the kernel for an unused loopback port.
 func freePort() (int, error) {
 	var err error
-	for try := 0; try < 200; try++ {
+	for try := 0; try < 400; try++ {
 		var l net.Listener
 		l, err = net.Listen("tcp", "127.0.0.1:0")
 		if err == nil {
